@@ -78,6 +78,8 @@ type mgCmd struct {
 	Cap, Mtu                        string
 	FlagsMask                       string // faces/update: "", "both", "flags", "mask"
 	Short                           int    // 1: the name ends after /nfd, 2: after the module (no verb)
+	Create                          string // faces/create: class of the request (Mgmt.tla)
+	Exp                             int    // rib/register: ExpirationPeriod in ms (0: absent)
 }
 type mgConf struct {
 	Algo string
@@ -140,7 +142,12 @@ func mgmtExec(t *testing.T, w *traceWriter, conf mgConf, next func(e int) *mgCmd
 			faceMtu := func() []map[string]any {
 				out := []map[string]any{}
 				for _, f := range face.FaceTable.GetAll() {
-					out = append(out, map[string]any{"id": f.FaceID(), "mtu": f.MTU()})
+					schemes := []string{f.RemoteURI().Scheme()}
+					if f.LocalURI().Scheme() != schemes[0] {
+						schemes = append(schemes, f.LocalURI().Scheme())
+					}
+					out = append(out, map[string]any{"id": f.FaceID(), "mtu": f.MTU(), "scope": int(f.Scope()), "schemes": schemes,
+						"uri": f.RemoteURI().String(), "luri": f.LocalURI().String()})
 				}
 				sort.Slice(out, func(i, j int) bool { return out[i]["id"].(uint64) < out[j]["id"].(uint64) })
 				return out
@@ -149,8 +156,22 @@ func mgmtExec(t *testing.T, w *traceWriter, conf mgConf, next func(e int) *mgCmd
 			if rs := table.FibStrategyTable.FindStrategyEnc(enc.Name{}); len(rs) >= 4 {
 				rootS = string(rs[3].Val)
 			}
+			ribRoutes := func() []map[string]any {
+				rs := []map[string]any{}
+				for _, e := range table.Rib.GetAllEntries() {
+					for _, r := range e.GetRoutes() {
+						x := -1
+						if r.ExpirationPeriod != nil {
+							x = int(*r.ExpirationPeriod / time.Millisecond)
+						}
+						rs = append(rs, map[string]any{"p": nameStrs(e.Name), "face": r.FaceID, "origin": r.Origin, "cost": r.Cost, "flags": r.Flags, "exp": x})
+					}
+				}
+				return rs
+			}
+			// (routes0: what the daemon registered for itself at start, e.g. its own management prefixes)
 			w.Emit(map[string]any{"ev": "Reset", "faces": faceMtu(), "req": []uint64{fL.id, fN.id}, "lh": cfg.Mgmt.AllowLocalhop,
-				"cap": table.CsCapacity(), "rootStrategy": rootS, "g": conf})
+				"cap": table.CsCapacity(), "rootStrategy": rootS, "routes0": ribRoutes(), "g": conf})
 
 			ask := func(src *reqFace, name enc.Name, nonce int) []*spec.Data {
 				i, err := spec.Spec{}.MakeInterest(name, &ndn.InterestConfig{Nonce: utils.IdPtr(uint64(nonce)), MustBeFresh: true, CanBePrefix: true}, nil, nil)
@@ -168,12 +189,7 @@ func mgmtExec(t *testing.T, w *traceWriter, conf mgConf, next func(e int) *mgCmd
 				return src.datas
 			}
 			observe := func(nonce int) map[string]any {
-				rs := []map[string]any{}
-				for _, e := range table.Rib.GetAllEntries() {
-					for _, r := range e.GetRoutes() {
-						rs = append(rs, map[string]any{"p": nameStrs(e.Name), "face": r.FaceID, "origin": r.Origin, "cost": r.Cost, "flags": r.Flags})
-					}
-				}
+				rs := ribRoutes()
 				ss := []map[string]any{}
 				for _, e := range table.FibStrategyTable.GetAllForwardingStrategies() {
 					s := e.GetStrategy()
@@ -203,7 +219,11 @@ func mgmtExec(t *testing.T, w *traceWriter, conf mgConf, next func(e int) *mgCmd
 					} else {
 						for _, e := range st.Entries {
 							for _, r := range e.Routes {
-								dsRoutes = append(dsRoutes, map[string]any{"p": nameStrs(e.Name), "face": r.FaceId, "origin": r.Origin, "cost": r.Cost, "flags": r.Flags})
+								x := -1
+								if r.ExpirationPeriod != nil {
+									x = int(*r.ExpirationPeriod)
+								}
+								dsRoutes = append(dsRoutes, map[string]any{"p": nameStrs(e.Name), "face": r.FaceId, "origin": r.Origin, "cost": r.Cost, "flags": r.Flags, "exp": x})
 							}
 						}
 					}
@@ -245,6 +265,7 @@ func mgmtExec(t *testing.T, w *traceWriter, conf mgConf, next func(e int) *mgCmd
 					dsOK = false
 				}
 				dsFaces := []map[string]any{}
+				ctr := []map[string]any{}
 				if ds := ask(fL, nm("/localhost/nfd/faces/list"), nonce*7+4); len(ds) > 0 {
 					if st, err := mgmtdef.ParseFaceStatusMsg(enc.NewWireReader(ds[0].ContentV), true); err == nil {
 						for _, e := range st.Vals {
@@ -253,6 +274,11 @@ func mgmtExec(t *testing.T, w *traceWriter, conf mgConf, next func(e int) *mgCmd
 								mtu = int(*e.Mtu)
 							}
 							dsFaces = append(dsFaces, map[string]any{"id": e.FaceId, "mtu": mtu})
+							for _, id := range real {
+								if lsf := face.FaceTable.Get(id); lsf != nil && id == e.FaceId {
+									ctr = append(ctr, map[string]any{"id": id, "inb": lsf.NInBytes(), "outb": lsf.NOutBytes(), "dsIn": e.NInBytes, "dsOut": e.NOutBytes})
+								}
+							}
 						}
 					} else {
 						dsOK = false
@@ -271,6 +297,58 @@ func mgmtExec(t *testing.T, w *traceWriter, conf mgConf, next func(e int) *mgCmd
 					dsOK = false
 				}
 				o["dsRoutes"], o["dsStrats"], o["dsOK"], o["dsFib"], o["dsFaces"], o["dsCap"] = dsRoutes, dsStrats, dsOK, dsFib, dsFaces, dsCap
+				o["ctr"] = ctr
+				// faces/query with a handful of filters (by id, scheme, scope, remote and local URI, combinations, nothing)
+				queries := []map[string]any{}
+				type qf struct {
+					faceId, scope     int
+					scheme, uri, luri string
+				}
+				for k, q := range []qf{{int(real[0]), -1, "", "", ""}, {int(real[1]), -1, "", "", ""}, {9999, -1, "", "", ""}, {-1, -1, "udp4", "", ""}, {-1, -1, "unix", "", ""}, {-1, -1, "fd", "", ""},
+					{-1, 1, "", "", ""}, {-1, 0, "", "", ""}, {-1, -1, "", "udp4://10.0.0.2:6364", ""}, {-1, -1, "", "", "udp4://10.0.0.1:6363"}, {int(real[1]), 1, "", "", ""},
+					{-1, 0, "udp4", "", "udp4://10.0.0.1:6363"}, {-1, -1, "", "", ""}, {-1, -1, "internal", "", ""}} {
+					fv := &mgmtdef.FaceQueryFilterValue{}
+					if q.faceId >= 0 {
+						fv.FaceId = utils.IdPtr(uint64(q.faceId))
+					}
+					if q.scope >= 0 {
+						fv.FaceScope = utils.IdPtr(uint64(q.scope))
+					}
+					if q.scheme != "" {
+						fv.UriScheme = utils.IdPtr(q.scheme)
+					}
+					if q.uri != "" {
+						fv.Uri = utils.IdPtr(q.uri)
+					}
+					if q.luri != "" {
+						fv.LocalUri = utils.IdPtr(q.luri)
+					}
+					qn := append(nm("/localhost/nfd/faces/query"), enc.NewBytesComponent(enc.TypeGenericNameComponent, (&mgmtdef.FaceQueryFilter{Val: fv}).Encode().Join()))
+					ids := []uint64{}
+					if ds := ask(fL, qn, nonce*7+20+k); len(ds) > 0 {
+						if st, err := mgmtdef.ParseFaceStatusMsg(enc.NewWireReader(ds[0].ContentV), true); err == nil {
+							for _, e := range st.Vals {
+								ids = append(ids, e.FaceId)
+							}
+						} else {
+							ids = append(ids, 0) // an undecodable answer is not the answer
+						}
+					} else {
+						ids = append(ids, 0)
+					}
+					queries = append(queries, map[string]any{"f": map[string]any{"faceId": q.faceId, "scope": q.scope, "scheme": q.scheme, "uri": q.uri, "luri": q.luri}, "ids": ids})
+				}
+				o["queries"] = queries
+				// status/general: table sizes at the instant the dataset is generated
+				time.Sleep(2 * time.Second) // a status dataset cached a moment ago (the command may have asked for it) goes stale
+				synctest.Wait()
+				gen := map[string]any{"ok": false, "nfib": -1, "npit": -1, "ncs": -1, "npitBefore": th.GetNumPitEntries(), "ncsBefore": th.GetNumCsEntries()}
+				if ds := ask(fL, nm("/localhost/nfd/status/general"), nonce*7+6); len(ds) > 0 {
+					if st, err := mgmtdef.ParseGeneralStatus(enc.NewWireReader(ds[0].ContentV), true); err == nil {
+						gen["ok"], gen["nfib"], gen["npit"], gen["ncs"] = true, st.NFibEntries, st.NPitEntries, st.NCsEntries
+					}
+				}
+				o["gen"] = gen
 				return o
 			}
 			for e := 0; crashed == ""; e++ {
@@ -279,7 +357,7 @@ func mgmtExec(t *testing.T, w *traceWriter, conf mgConf, next func(e int) *mgCmd
 					break
 				}
 				c := map[string]any{"hasParams": g.HasParams, "hasName": g.HasName, "faceId": -1, "cost": g.Cost, "origin": g.Origin, "flags": g.Flags,
-					"strat": g.Strat, "stratName": g.StratName, "capacity": -1, "mtu": -1, "name": []string{}, "flagsMask": "none"}
+					"strat": g.Strat, "stratName": g.StratName, "capacity": -1, "mtu": -1, "name": []string{}, "flagsMask": "none", "exp": -1, "create": g.Create}
 				args := &mgmtdef.ControlArgs{}
 				mod, verb := g.Mod, g.Verb
 				if g.HasName {
@@ -311,6 +389,41 @@ func mgmtExec(t *testing.T, w *traceWriter, conf mgConf, next func(e int) *mgCmd
 				}
 				if g.Flags >= 0 {
 					args.Flags = utils.IdPtr(uint64(g.Flags))
+				}
+				if g.Exp > 0 {
+					args.ExpirationPeriod = utils.IdPtr(uint64(g.Exp))
+					c["exp"] = g.Exp
+				}
+				if g.Create != "" { // faces/create: every class is one the daemon must refuse without opening a socket
+					uri := "udp4://10.9.9.9:6363"
+					switch g.Create {
+					case "nouri":
+						uri = ""
+					case "smallmtu":
+						args.Mtu = utils.IdPtr(uint64(10))
+					case "baduri":
+						uri = []string{"garbage", "internal://", "null://", "://"}[e%4]
+					case "flagsonly":
+						if e%2 == 0 {
+							args.Flags = utils.IdPtr(uint64(1))
+						} else {
+							args.Mask = utils.IdPtr(uint64(1))
+						}
+					case "conflict":
+						uri = "udp4://10.0.0.2:6363"
+					case "multicast":
+						uri = []string{"udp4://224.0.0.23:56363", "tcp4://224.0.0.23:6363", "udp6://[ff02::1234]:56363", "udp4://0.0.0.0:6363"}[e%4]
+					case "ondemand":
+						args.FacePersistency = utils.IdPtr(uint64([]int{1, 3, 77}[e%3]))
+						if e%2 == 0 {
+							uri = "tcp4://10.9.9.9:6363"
+						}
+					case "scheme":
+						uri = []string{"dev://eth0", "fd://5", "unix:///run/verif-none.sock"}[e%3]
+					}
+					if uri != "" {
+						args.Uri = utils.IdPtr(uri)
+					}
 				}
 				if g.Cap != "" {
 					cv, _ := strconv.ParseUint(g.Cap, 10, 64)
@@ -479,9 +592,15 @@ var mgSt = []string{"/", "/app", "/st/q"}
 func mgRandom(rng *rand.Rand) *mgCmd {
 	g := &mgCmd{HasParams: true, HasName: true, Cost: -1, Origin: -1, Flags: -1, Pfx: "localhost", Local: true}
 	pickS := func(x ...string) string { return x[rng.Intn(len(x))] }
-	switch pick := rng.Intn(9); pick {
+	switch pick := rng.Intn(10); pick {
+	case 9:
+		g.Mod, g.Verb = "faces", "create"
+		g.Create = pickS("nouri", "smallmtu", "baduri", "flagsonly", "conflict", "multicast", "ondemand", "scheme")
 	case 0, 1:
 		g.Mod, g.Verb, g.Name = "rib", pickS("register", "register", "unregister"), pickS(mgRib...)
+		if g.Verb == "register" && rng.Intn(3) == 0 {
+			g.Exp = []int{1, 3000, 86400000}[rng.Intn(3)]
+		}
 	case 2, 3:
 		g.Mod, g.Verb, g.Name = "fib", pickS("add-nexthop", "add-nexthop", "remove-nexthop"), pickS(mgFib...)
 	case 4, 5:
@@ -491,7 +610,7 @@ func mgRandom(rng *rand.Rand) *mgCmd {
 	case 7:
 		g.Mod, g.Verb = "faces", pickS("update", "update", "update", "destroy")
 	default:
-		g.Mod, g.Verb = pickS("rib", "fib", "cs", "strategy-choice", "faces"), "bogus"
+		g.Mod, g.Verb = pickS("rib", "fib", "cs", "strategy-choice", "faces", "status"), pickS("bogus", "bogus", "announce", "general", "query", "list")
 	}
 	switch g.Mod {
 	case "cs":
@@ -501,6 +620,10 @@ func mgRandom(rng *rand.Rand) *mgCmd {
 	case "faces":
 		g.HasName = false
 		g.FaceRole = pickS("real0", "real1", "real0", "missing", "none")
+		if g.Verb == "create" {
+			g.FaceRole = "none"
+			break
+		}
 		if g.Verb == "destroy" { // the second target face, one that does not exist, or none named; never the faces the harness talks through
 			g.FaceRole = pickS("real1", "real1", "missing", "none")
 		}
@@ -573,12 +696,16 @@ func mgMatrix() []*mgCmd {
 			if verb == "destroy" {
 				g.FaceRole, g.Mtu = "real1", ""
 			}
+			if verb == "create" {
+				g.FaceRole, g.Mtu, g.Create = "none", "", "conflict"
+			}
 		}
 		return g
 	}
 	var out []*mgCmd
 	verbs := [][2]string{{"rib", "register"}, {"fib", "add-nexthop"}, {"strategy-choice", "set"}, {"cs", "config"}, {"faces", "update"},
-		{"rib", "unregister"}, {"fib", "remove-nexthop"}, {"strategy-choice", "unset"}, {"faces", "destroy"}, {"rib", "bogus"}, {"faces", "bogus"}, {"bogus", "bogus"}}
+		{"rib", "unregister"}, {"fib", "remove-nexthop"}, {"strategy-choice", "unset"}, {"faces", "destroy"}, {"rib", "bogus"}, {"faces", "bogus"}, {"bogus", "bogus"},
+		{"rib", "announce"}, {"status", "general"}, {"status", "bogus"}, {"faces", "create"}}
 	for _, mv := range verbs {
 		for kind := 0; kind < 8; kind++ {
 			g := base(mv[0], mv[1])
@@ -620,6 +747,21 @@ func mgMatrix() []*mgCmd {
 	r4 := base("rib", "unregister")
 	r4.Name, r4.FaceRole = "/localhop/nfd", "mgmt"
 	out = append(out, r1, r2, r3, r4, base("rib", "register"))
+	// every refusal class of faces/create, twice (the variants of a class alternate with the position in the history)
+	for rpt := 0; rpt < 4; rpt++ {
+		for _, k := range []string{"nouri", "smallmtu", "baduri", "flagsonly", "conflict", "multicast", "ondemand", "scheme"} {
+			g := base("faces", "create")
+			g.Create = k
+			out = append(out, g)
+		}
+		out = append(out, base("cs", "config"))
+	}
+	// a route with an expiration period, re-registered with another one and without one
+	for _, x := range []int{3000, 86400000, 0, 1} {
+		g := base("rib", "register")
+		g.Exp = x
+		out = append(out, g)
+	}
 	return out
 }
 
